@@ -227,7 +227,7 @@ struct HPca : Harness {
       LMat G = lgram(E); LVec ev; LMat V; ljacobi(G, ev, V);
       LD tr = 0; for (LD v : ev) tr += v;
       if (tr <= 0) { o.counters["skipped.no_variance"]++; return o; }
-      NipalsTol tol = nipals_tolerances(ev, npc, n, DOC_PCA_CRITERION);   // see oracle/nipals_tol.hpp for the derivation
+      NipalsTol tol = nipals_tolerances(ev, npc, n, DOC_PCA_CRITERION, 10.0, pp);   // see oracle/nipals_tol.hpp for the derivation
       int kmax = tol.kmax;
       if (kmax < npc) o.counters["skipped.components_undecidable"] += npc - kmax;
       if (kmax == 0) { o.counters["skipped.spectrum_not_separated"]++; return o; }
